@@ -60,9 +60,42 @@ def _pool_job(job):
         out["problems"].append(("global_rng_dependence", f"np.random.seed(1) -> {i0}, seed(2) -> {i2}, seed(3) -> {i3}"))
     if not same(i0, u0, i4, u4):
         out["problems"].append(("repeat_differs", f"{i0} then {i4} on the same object"))
+    _instance_variant(E, rng, classes, bs, out, same)
     for lab in ("cold", str(rng.choice(["few", "half"]))):      # cold start: every prediction is a tie
         _prefit_variant(E, rng, classes, seed, bs, out, same, lab)
     return out
+
+
+def _instance_variant(E, rng, classes, bs, out, same):
+    """random_state given as a RandomState INSTANCE (the statement names it): the repeated call on the same strategy and a
+    twin built from an equal instance agree, and the caller's instance is left where it was (cold start: ties everywhere)."""
+    n = int(rng.integers(6, 11))
+    X, y, _, _, labeling = R.gen_data(rng, E.task, n=n, binary=E.binary, cold=str(rng.choice(["cold", "half"])))
+    s0 = int(rng.integers(0, 1000))
+    try:
+        np.random.seed(1)
+        inst = np.random.RandomState(s0)
+        before = inst.get_state()[1].tobytes(), inst.get_state()[2]
+        qs = E.make(classes, inst)
+        kw = lambda: E.kw(classes, s0)
+        r1 = qs.query(X=X.copy(), y=y.copy(), batch_size=bs, return_utilities=True, **kw())
+        np.random.seed(1)
+        r2 = qs.query(X=X.copy(), y=y.copy(), batch_size=bs, return_utilities=True, **kw())
+        np.random.seed(1)
+        r3 = E.make(classes, np.random.RandomState(s0)).query(X=X.copy(), y=y.copy(), batch_size=bs, return_utilities=True, **kw())
+        after = inst.get_state()[1].tobytes(), inst.get_state()[2]
+    except Exception:
+        return
+    f = lambda r: (np.asarray(r[0]).tolist(), np.asarray(r[1], dtype=float))
+    (a1, u1), (a2, u2), (a3, u3) = f(r1), f(r2), f(r3)
+    rec = {"X": X.tolist(), "y": [None if np.isnan(v) else v for v in y], "labeling": labeling, "random_state": f"RandomState({s0})"}
+    out["instance"] = rec
+    if not same(a1, u1, a2, u2):
+        out["problems"].append(("repeat_differs_instance", f"{a1} then {a2} on the same strategy built with random_state=RandomState({s0}) ({labeling})"))
+    elif not same(a1, u1, a3, u3):
+        out["problems"].append(("twins_differ_instance", f"{a1} vs {a3} for twins built from equal RandomState instances ({labeling})"))
+    elif before != after:
+        out["problems"].append(("caller_generator_advanced", f"query advanced the RandomState instance passed as random_state ({labeling})"))
 
 
 def _prefit_variant(E, rng, classes, seed, bs, out, same, lab):
@@ -119,7 +152,7 @@ def run(ctx):
     ctx.coq_props()
     # ---- static table ----
     sites = TR.scan()
-    listed = {f["site"] for f in ctx.known if f.get("site")}
+    listed = {f["site"] for f in ctx.known if f.get("site")} | set(TR.REVIEWED)
     tdir = ctx.build
     rows = []
     for s in sites:
@@ -157,7 +190,7 @@ def run(ctx):
             if kind == "exception":
                 ctx.hist["query_exception(not C06)"] += 1
                 continue
-            ctx.violation(out["name"], kind, msg, {k: out.get(k) for k in ("name", "seed", "X", "y", "bs", "prefit")}, what=f"{out['name']}: {kind.replace('_', ' ')} ({msg})")
+            ctx.violation(out["name"], kind, msg, {k: out.get(k) for k in ("name", "seed", "X", "y", "bs", "prefit", "instance")}, what=f"{out['name']}: {kind.replace('_', ' ')} ({msg})")
     # ---- dynamic: stream managers / baselines ----
     rng = ctx.rng("c06s")
     for kind in S.ALL_KINDS:
